@@ -1,0 +1,276 @@
+//go:build verif
+
+// Contracts for the deductive verifier in /verif (govc) — JSON-RPC views of receipts (C14). This file contains no code:
+// with the build tag off it is not part of the package, with it on it adds nothing to the build.
+package backend
+
+//@ import common "github.com/ethereum/go-ethereum/common"
+//@ import ethtypes "github.com/ethereum/go-ethereum/core/types"
+//@ import abci "github.com/cometbft/cometbft/abci/types"
+//@ import cmtrpctypes "github.com/cometbft/cometbft/rpc/core/types"
+//@ import rpctypes "github.com/EscanBE/evermint/v12/rpc/types"
+//@ import evertypes "github.com/EscanBE/evermint/v12/types"
+//@ import evmtypes "github.com/EscanBE/evermint/v12/x/evm/types"
+//@ import big "math/big"
+
+// ---------------------------------------------------------------------------------------------
+// Vocabulary.
+// "The consensus results" of a block are the ExecTxResult list of the block-results response: the x/evm message server
+// emits one tx_receipt event per executed Ethereum transaction (C13: GetSdkEventForReceipt renders gas used, tx index,
+// the marshalled consensus receipt ...); a transaction that passed the ante handler but failed in the state transition
+// (e.g. exceeded the block gas limit) has NO receipt event and is recorded by consensus with its gas limit.
+//
+// evRc*(events): what TxReceiptFromEvent reads out of one event list — a function of the list (slice value; the events
+// of a fetched response are never written by this package).
+// ---------------------------------------------------------------------------------------------
+//@ ghost func evRcErr(b ref, o int, l int) bool
+//@ ghost func evRcHas(b ref, o int, l int) bool
+//@ ghost func evRcGasUsed(b ref, o int, l int) int
+//@ ghost func evRcCumGas(b ref, o int, l int) int
+//@ ghost func evRcStatus(b ref, o int, l int) int
+//@ ghost func evRcType(b ref, o int, l int) int
+//@ ghost func evRcTxIndex(b ref, o int, l int) int
+//@ ghost func evRcTxHash(b ref, o int, l int) common.Hash
+//@ ghost func evRcContract(b ref, o int, l int) common.Address
+//@ ghost func evRcBlockNumber(b ref, o int, l int) int
+//@ ghost func evRcNLogs(b ref, o int, l int) int
+
+// Names for the parts of the two CometBFT responses (pinned by the summaries of the two client calls below; they do not
+// constrain the responses): the bytes of the i-th transaction of the block, the event list of the i-th result.
+//@ ghost func blkTxBytes(blk ref, i int) bytes
+//@ ghost func brEvB(rs ref, i int) ref
+//@ ghost func brEvO(rs ref, i int) int
+//@ ghost func brEvL(rs ref, i int) int
+// brDropped(rs, i): the i-th result is one of a transaction that was dropped before the ante handler (non-zero code and no
+// ethereum_tx event: x/evm/types TxWasDroppedPreAnteHandleDueToBlockGasExcess)
+//@ ghost func brDropped(rs ref, i int) bool
+// the receipt view of the i-th result of a block-results response
+//@ ghost func rsErr(rs ref, i int) bool = evRcErr(brEvB(rs, i), brEvO(rs, i), brEvL(rs, i))
+//@ ghost func rsHas(rs ref, i int) bool = evRcHas(brEvB(rs, i), brEvO(rs, i), brEvL(rs, i))
+//@ ghost func rsGasUsed(rs ref, i int) int = evRcGasUsed(brEvB(rs, i), brEvO(rs, i), brEvL(rs, i))
+//@ ghost func rsCumGas(rs ref, i int) int = evRcCumGas(brEvB(rs, i), brEvO(rs, i), brEvL(rs, i))
+//@ ghost func rsStatus(rs ref, i int) int = evRcStatus(brEvB(rs, i), brEvO(rs, i), brEvL(rs, i))
+//@ ghost func rsType(rs ref, i int) int = evRcType(brEvB(rs, i), brEvO(rs, i), brEvL(rs, i))
+//@ ghost func rsTxIndex(rs ref, i int) int = evRcTxIndex(brEvB(rs, i), brEvO(rs, i), brEvL(rs, i))
+//@ ghost func rsTxHash(rs ref, i int) common.Hash = evRcTxHash(brEvB(rs, i), brEvO(rs, i), brEvL(rs, i))
+//@ ghost func rsContract(rs ref, i int) common.Address = evRcContract(brEvB(rs, i), brEvO(rs, i), brEvL(rs, i))
+//@ ghost func rsNLogs(rs ref, i int) int = evRcNLogs(brEvB(rs, i), brEvO(rs, i), brEvL(rs, i))
+
+// Gas that the transaction at RAW block position i contributes to the cumulative gas of a later transaction, as the
+// synthetic-receipt code counts it (after fix F-rpc-1): a result of a transaction that was dropped / rejected before or in
+// the ante handler (brDropped) counts nothing; otherwise only transactions that decode to exactly one MsgEthereumTx count;
+// with a receipt event: the gas used recorded there; without one (failed after the ante handler): the gas limit; an
+// unreadable receipt event contributes nothing (never produced by consensus: C13.event_renders_receipt).
+//@ ghost func ethGasAt(dec ref, blk ref, rs ref, i int) int = (txDecodes(dec, blkTxBytes(blk, i)) && singleEthBytes(blkTxBytes(blk, i))) ? (rsErr(rs, i) ? 0 : (rsHas(rs, i) ? rsGasUsed(rs, i) : decGas(ethTxOfBytes(blkTxBytes(blk, i))))) : 0
+//@ ghost func prevGasAt(dec ref, blk ref, rs ref, i int) int = brDropped(rs, i) ? 0 : ethGasAt(dec, blk, rs, i)
+// prevGasTo(.., n) = sum of prevGasAt over the raw positions 0 .. n-1 (definition by recursion on n)
+//@ ghost func prevGasTo(dec ref, blk ref, rs ref, n int) int
+//@ axiom[C14] prev_gas_zero: forall d ref, b ref, r ref, n int :: {prevGasTo(d, b, r, n)} n <= 0 ==> prevGasTo(d, b, r, n) == 0
+//@ axiom[C14] prev_gas_step: forall d ref, b ref, r ref, n int :: {prevGasTo(d, b, r, n + 1)} n >= 0 ==> prevGasTo(d, b, r, n + 1) == prevGasTo(d, b, r, n) + prevGasAt(d, b, r, n)
+
+// What CONSENSUS records for the earlier transactions (C13; finding F-rpc-1, docs/findings-rpc.md): an Ethereum transaction
+// that was rejected by the ante handler (anteRejectedEth: Ethereum-shaped, non-zero code, no ethereum_tx event) is NOT
+// counted; every other Ethereum-shaped transaction with ethGasAt. consGasTo is the consensus sum; since the fix the code's
+// sum prevGasTo is the same function (C14.prev_loop_cumulative_consensus / C14.synthetic_cumulative_gas_consensus hold
+// unconditionally; the original code — selftest mutant C14_rpc_receipt_counts_ante_rejected_txs — breaks them).
+//@ ghost func anteRejectedEth(dec ref, blk ref, rs ref, i int) bool = txDecodes(dec, blkTxBytes(blk, i)) && singleEthBytes(blkTxBytes(blk, i)) && brDropped(rs, i)
+//@ ghost func consGasAt(dec ref, blk ref, rs ref, i int) int = anteRejectedEth(dec, blk, rs, i) ? 0 : ethGasAt(dec, blk, rs, i)
+//@ ghost func consGasTo(dec ref, blk ref, rs ref, n int) int
+//@ axiom[C14] cons_gas_zero: forall d ref, b ref, r ref, n int :: {consGasTo(d, b, r, n)} n <= 0 ==> consGasTo(d, b, r, n) == 0
+//@ axiom[C14] cons_gas_step: forall d ref, b ref, r ref, n int :: {consGasTo(d, b, r, n + 1)} n >= 0 ==> consGasTo(d, b, r, n + 1) == consGasTo(d, b, r, n) + consGasAt(d, b, r, n)
+
+// ---------------------------------------------------------------------------------------------
+// Node client / indexer calls: trusted summaries returning unconstrained results (the node is outside the check).
+// The quantified ensures only NAME parts of the returned object (definitional, satisfiable for every response).
+// ---------------------------------------------------------------------------------------------
+//@ func (b *Backend) GetTxByEthHash(hash common.Hash) (res *evertypes.TxResult, err error)
+//@   assumed
+//@   modifies nothing
+//@   ensures err == nil ==> (res != nil && fresh(res))
+//@   panics never
+
+//@ func (b *Backend) CometBFTBlockByNumber(blockNum rpctypes.BlockNumber) (res *cmtrpctypes.ResultBlock, err error)
+//@   assumed
+//@   modifies nothing
+//@   ensures err != nil ==> res == nil
+//@   ensures res != nil ==> res.Block != nil
+//@   ensures res != nil ==> (forall i int :: {blkTxBytes(res, i)} (0 <= i && i < len(res.Block.Data.Txs)) ==> blkTxBytes(res, i) == bytes(res.Block.Data.Txs[i]))
+//@   panics never
+
+//@ func (b *Backend) CometBFTBlockResultByNumber(height *int64) (res *cmtrpctypes.ResultBlockResults, err error)
+//@   assumed
+//@   modifies nothing
+//@   ensures err == nil ==> res != nil
+//@   ensures res != nil ==> (forall j int :: {brEvB(res, j)} {brEvO(res, j)} {brEvL(res, j)} (0 <= j && j < len(res.TxsResults)) ==> (res.TxsResults[j] != nil && brEvB(res, j) == base(res.TxsResults[j].Events) && brEvO(res, j) == off(res.TxsResults[j].Events) && brEvL(res, j) == len(res.TxsResults[j].Events)))
+//@   ensures res != nil ==> (forall j int :: {brDropped(res, j)} (0 <= j && j < len(res.TxsResults)) ==> brDropped(res, j) == (res.TxsResults[j].Code != 0 && !(exists k int :: {res.TxsResults[j].Events[k].Type} 0 <= k && k < len(res.TxsResults[j].Events) && res.TxsResults[j].Events[k].Type == evmtypes.EventTypeEthereumTx)))
+//@   panics never
+
+//@ func (b *Backend) BaseFee(blockRes *cmtrpctypes.ResultBlockResults) (fee *big.Int, err error)
+//@   assumed
+//@   modifies nothing
+//@   ensures fee != nil ==> (fresh(fee) && bigval[fee] >= 0 && bigval[fee] < pow2(256))
+//@   panics never
+
+// ---------------------------------------------------------------------------------------------
+// blocks.go — EthMsgsFromCometBFTBlock (C14): which transactions of a block are its Ethereum transactions for the JSON-RPC
+// views, and in which order. rpcElig(j): not dropped before the ante handler, decodable, exactly one message and that a
+// MsgEthereumTx. The eth tx index of an eligible transaction = number of eligible transactions before it (rpcCountTo).
+// The indexer's rule (indexer.IndexBlock, ixElig) is the same except that it (a) asks app/antedl/utils.IsEthereumTx
+// (additionally: no non-critical extension option, at most the one Ethereum extension option) and (b) skips a result
+// whose index attribute is malformed; both differences concern transactions consensus never executes as Ethereum
+// transactions / events consensus never emits (not decided here).
+// ---------------------------------------------------------------------------------------------
+//@ ghost func rpcElig(dec ref, blk ref, rs ref, j int) bool = !brDropped(rs, j) && txDecodes(dec, blkTxBytes(blk, j)) && singleEthBytes(blkTxBytes(blk, j))
+//@ ghost func rpcCountTo(dec ref, blk ref, rs ref, n int) int
+//@ axiom[C14] rpc_count_zero: forall d ref, b ref, r ref, n int :: {rpcCountTo(d, b, r, n)} n <= 0 ==> rpcCountTo(d, b, r, n) == 0
+//@ axiom[C14] rpc_count_step: forall d ref, b ref, r ref, n int :: {rpcCountTo(d, b, r, n + 1)} n >= 0 ==> rpcCountTo(d, b, r, n + 1) == rpcCountTo(d, b, r, n) + (rpcElig(d, b, r, n) ? 1 : 0)
+
+// The two quantified preconditions are the naming facts of the client-call summaries (established by every caller that
+// obtained the two responses from CometBFTBlockByNumber / CometBFTBlockResultByNumber).
+//@ func (b *Backend) EthMsgsFromCometBFTBlock(resBlock *cmtrpctypes.ResultBlock, blockRes *cmtrpctypes.ResultBlockResults) (msgs []*evmtypes.MsgEthereumTx)
+//@   requires b != nil && b.logger != nil && b.clientCtx.TxConfig != nil && resBlock != nil && resBlock.Block != nil && blockRes != nil
+//@   requires forall i int :: {blkTxBytes(resBlock, i)} (0 <= i && i < len(resBlock.Block.Data.Txs)) ==> blkTxBytes(resBlock, i) == bytes(resBlock.Block.Data.Txs[i])
+//@   requires forall j int :: {brDropped(blockRes, j)} (0 <= j && j < len(blockRes.TxsResults)) ==> (blockRes.TxsResults[j] != nil && brDropped(blockRes, j) == (blockRes.TxsResults[j].Code != 0 && !(exists k int :: {blockRes.TxsResults[j].Events[k].Type} 0 <= k && k < len(blockRes.TxsResults[j].Events) && blockRes.TxsResults[j].Events[k].Type == evmtypes.EventTypeEthereumTx)))
+//@   modifies txSrc
+//@   ensures[C14.eth_msgs_count] len(msgs) == rpcCountTo(b.clientCtx.TxConfig.TxDecoder(), resBlock, blockRes, len(resBlock.Block.Data.Txs))
+//@   ensures[C14.eth_msgs_position] forall j int :: (0 <= j && j < len(resBlock.Block.Data.Txs) && rpcElig(b.clientCtx.TxConfig.TxDecoder(), resBlock, blockRes, j)) ==> (msgs[rpcCountTo(b.clientCtx.TxConfig.TxDecoder(), resBlock, blockRes, j)] != nil && bytes(msgs[rpcCountTo(b.clientCtx.TxConfig.TxDecoder(), resBlock, blockRes, j)].MarshalledTx) == ethTxOfBytes(blkTxBytes(resBlock, j)))
+//@   ensures[C14.eth_msgs_non_nil] forall k int :: (0 <= k && k < len(msgs)) ==> msgs[k] != nil
+//@   ensures[C14.eth_msgs_tx_src_frame] forall r ref :: !fresh(r) ==> txSrc[r] == old(txSrc[r])
+//@   panics any
+//@ loop 1
+//@   modifies txSrc, contents(result)
+//@   invariant[C14.eth_msgs_loop_bounds] -1 <= rangeindex && rangeindex < len(resBlock.Block.Data.Txs) && 0 <= len(result)
+//@   invariant[C14.eth_msgs_loop_count] len(result) == rpcCountTo(b.clientCtx.TxConfig.TxDecoder(), resBlock, blockRes, rangeindex + 1)
+//@   invariant[C14.eth_msgs_loop_position] forall j int :: (0 <= j && j <= rangeindex && rpcElig(b.clientCtx.TxConfig.TxDecoder(), resBlock, blockRes, j)) ==> (result[rpcCountTo(b.clientCtx.TxConfig.TxDecoder(), resBlock, blockRes, j)] != nil && bytes(result[rpcCountTo(b.clientCtx.TxConfig.TxDecoder(), resBlock, blockRes, j)].MarshalledTx) == ethTxOfBytes(blkTxBytes(resBlock, j)))
+//@   invariant[C14.eth_msgs_loop_count_bounds] forall j int :: {rpcCountTo(b.clientCtx.TxConfig.TxDecoder(), resBlock, blockRes, j)} (0 <= j && j <= rangeindex + 1) ==> (0 <= rpcCountTo(b.clientCtx.TxConfig.TxDecoder(), resBlock, blockRes, j) && rpcCountTo(b.clientCtx.TxConfig.TxDecoder(), resBlock, blockRes, j) <= len(result))
+//@   invariant[C14.eth_msgs_loop_count_strict] forall j int :: {rpcCountTo(b.clientCtx.TxConfig.TxDecoder(), resBlock, blockRes, j)} (0 <= j && j <= rangeindex && rpcElig(b.clientCtx.TxConfig.TxDecoder(), resBlock, blockRes, j)) ==> rpcCountTo(b.clientCtx.TxConfig.TxDecoder(), resBlock, blockRes, j) < len(result)
+//@   invariant[C14.eth_msgs_loop_result_fresh] (base(result) == nil && cap(result) == 0) || fresh(base(result))
+//@   invariant[C14.eth_msgs_loop_non_nil] forall k int :: (0 <= k && k < len(result)) ==> result[k] != nil
+//@   invariant[C14.eth_msgs_loop_tx_src_frame] forall r ref :: !fresh(r) ==> txSrc[r] == old(txSrc[r])
+
+// ---------------------------------------------------------------------------------------------
+// utils.go
+// ---------------------------------------------------------------------------------------------
+// ---------------------------------------------------------------------------------------------
+// utils.go — reading the tx_receipt event back (C14). What the consensus side writes: x/evm/types GetSdkEventForReceipt
+// (C13.event_renders_receipt: gasUsed, txIdx, logIdx as decimal texts; the marshalled consensus receipt as 0x-hex).
+// attrFirstAt(attrs, key, j): j is the position of the FIRST attribute with that key (findAttribute's choice).
+// ---------------------------------------------------------------------------------------------
+// 64-bit wrap-around addition (Go's uint64 +), without a modulo
+//@ ghost func wrapAdd64(a int, b int) int = a + b >= pow2(64) ? a + b - pow2(64) : a + b
+//@ ghost macro attrFirstAt(attrs []abci.EventAttribute, key string, j int) bool = 0 <= j && j < len(attrs) && attrs[j].Key == key && (forall i int :: (0 <= i && i < j) ==> attrs[i].Key != key)
+
+//@ func findAttribute(attrs []abci.EventAttribute, key string) (value string, found bool)
+//@   modifies nothing
+//@   ensures[C14.find_attr_found_iff] found == (exists j int :: 0 <= j && j < len(attrs) && attrs[j].Key == key)
+//@   ensures[C14.find_attr_first] forall j int :: attrFirstAt(attrs, key, j) ==> value == attrs[j].Value
+//@   ensures[C14.find_attr_absent] !found ==> value == ""
+//@   panics[C14.find_attr_never_panics] never
+//@ loop 1
+//@   invariant[C14.find_attr_loop_bounds] -1 <= rangeindex && rangeindex < len(attrs)
+//@   invariant[C14.find_attr_loop_none_yet] forall i int :: (0 <= i && i <= rangeindex) ==> attrs[i].Key != key
+
+// ParseTxReceiptFromEvent: every reported field is read from the FIRST attribute with the respective key; the consensus
+// fields (type, status, cumulative gas, bloom, logs) are the decoding of the marshalled receipt; the logs get the block
+// number, tx hash, tx index of the receipt and consecutive (64-bit) log indices from the start index attribute.
+//@ func ParseTxReceiptFromEvent(event abci.Event) (ic *InCompletedEthReceipt, err error)
+//@   requires event.Type == evmtypes.EventTypeTxReceipt
+//@   modifies nothing
+//@   ensures[C14.parse_receipt_shape] (err == nil) == (ic != nil) && (ic != nil ==> (fresh(ic) && ic.Receipt != nil && fresh(ic.Receipt) && ic.EffectiveGasPrice != nil && fresh(ic.EffectiveGasPrice) && ic.Receipt.BlockNumber != nil && fresh(ic.Receipt.BlockNumber)))
+//@   ensures[C14.parse_receipt_gas_used] ic != nil ==> (forall j int :: attrFirstAt(event.Attributes, evmtypes.AttributeKeyReceiptGasUsed, j) ==> ic.Receipt.GasUsed == uintTextVal(event.Attributes[j].Value, 10))
+//@   ensures[C14.parse_receipt_tx_index] ic != nil ==> (forall j int :: attrFirstAt(event.Attributes, evmtypes.AttributeKeyReceiptTxIndex, j) ==> ic.Receipt.TransactionIndex == uintTextVal(event.Attributes[j].Value, 10))
+//@   ensures[C14.parse_receipt_tx_hash] ic != nil ==> (forall j int :: attrFirstAt(event.Attributes, evmtypes.AttributeKeyReceiptEvmTxHash, j) ==> ic.Receipt.TxHash == common.HexToHash(event.Attributes[j].Value))
+//@   ensures[C14.parse_receipt_block_number] ic != nil ==> (forall j int :: attrFirstAt(event.Attributes, evmtypes.AttributeKeyReceiptBlockNumber, j) ==> bigval[ic.Receipt.BlockNumber] == uintTextVal(event.Attributes[j].Value, 10))
+//@   ensures[C14.parse_receipt_contract_address] ic != nil ==> (forall j int :: attrFirstAt(event.Attributes, evmtypes.AttributeKeyReceiptContractAddress, j) ==> ic.Receipt.ContractAddress == (event.Attributes[j].Value == "" ? zero(type(common.Address)) : common.HexToAddress(event.Attributes[j].Value)))
+//@   ensures[C14.parse_receipt_consensus_fields] ic != nil ==> (forall j int :: attrFirstAt(event.Attributes, evmtypes.AttributeKeyReceiptMarshalled, j) ==> hex0xDec(event.Attributes[j].Value) == rlpReceipt(ic.Receipt.Type, ic.Receipt.Status, ic.Receipt.CumulativeGasUsed, ic.Receipt.Bloom, base(ic.Receipt.Logs), off(ic.Receipt.Logs), len(ic.Receipt.Logs)))
+//@   ensures[C14.parse_receipt_needs_attributes] ic != nil ==> ((exists j int :: 0 <= j && j < len(event.Attributes) && event.Attributes[j].Key == evmtypes.AttributeKeyReceiptMarshalled) && (exists j int :: 0 <= j && j < len(event.Attributes) && event.Attributes[j].Key == evmtypes.AttributeKeyReceiptGasUsed) && (exists j int :: 0 <= j && j < len(event.Attributes) && event.Attributes[j].Key == evmtypes.AttributeKeyReceiptTxIndex) && (exists j int :: 0 <= j && j < len(event.Attributes) && event.Attributes[j].Key == evmtypes.AttributeKeyReceiptEvmTxHash))
+//@   ensures[C14.parse_receipt_logs_fresh] ic != nil ==> (forall i int :: (0 <= i && i < len(ic.Receipt.Logs)) ==> (ic.Receipt.Logs[i] != nil && fresh(ic.Receipt.Logs[i])))
+//@   ensures[C14.parse_receipt_logs_position] ic != nil ==> (forall i int :: (0 <= i && i < len(ic.Receipt.Logs)) ==> (ic.Receipt.Logs[i].TxHash == ic.Receipt.TxHash && ic.Receipt.Logs[i].TxIndex == ic.Receipt.TransactionIndex && ic.Receipt.Logs[i].BlockNumber == bigval[ic.Receipt.BlockNumber]))
+//@   ensures[C14.parse_receipt_log_index] ic != nil ==> (forall j int :: attrFirstAt(event.Attributes, evmtypes.AttributeKeyReceiptStartLogIndex, j) ==> (forall i int :: (0 <= i && i < len(ic.Receipt.Logs)) ==> ic.Receipt.Logs[i].Index == wrapAdd64(uintTextVal(event.Attributes[j].Value, 10), i)))
+//@   panics[C14.parse_receipt_never_panics] never
+//@ loop 1
+//@   modifies fieldof(type(ethtypes.Log), BlockNumber), fieldof(type(ethtypes.Log), TxHash), fieldof(type(ethtypes.Log), TxIndex)
+//@   invariant[C14.parse_receipt_loop1_bounds] -1 <= rangeindex && rangeindex < len(receipt.Logs)
+//@   invariant[C14.parse_receipt_loop1_done] forall i int :: (0 <= i && i <= rangeindex) ==> (receipt.Logs[i].TxHash == receipt.TxHash && receipt.Logs[i].TxIndex == receipt.TransactionIndex && receipt.Logs[i].BlockNumber == blockNumber)
+//@   invariant[C14.parse_receipt_loop1_old_logs] forall l *ethtypes.Log :: !fresh(l) ==> (l.BlockNumber == old(l.BlockNumber) && l.TxHash == old(l.TxHash) && l.TxIndex == old(l.TxIndex))
+//@ loop 2
+//@   modifies fieldof(type(ethtypes.Log), Index)
+//@   invariant[C14.parse_receipt_loop2_bounds] -1 <= rangeindex && rangeindex < len(receipt.Logs)
+//@   invariant[C14.parse_receipt_loop2_done] forall i int :: (0 <= i && i <= rangeindex) ==> receipt.Logs[i].Index == wrapAdd64(startLogIndex, i)
+//@   invariant[C14.parse_receipt_loop2_old_logs] forall l *ethtypes.Log :: !fresh(l) ==> l.Index == old(l.Index)
+
+// TxReceiptFromEvent: (nil, nil) when the list has no tx_receipt event; otherwise the outcome of parsing the FIRST such
+// event (verified: gas used, tx index, tx hash and the consensus fields come from that event's attributes; the receipt
+// and its logs are new objects). TRUSTED on top (trusted ensures): the outcome is a function of the event list — the
+// evRc* names, keyed by the slice value; the events of a fetched response are never written by this package —, and the
+// log slice of a decoded receipt starts at offset 0 of its backing array (rlp decoding appends to a nil slice).
+//@ ghost macro evFirstReceiptAt(events []abci.Event, j int) bool = 0 <= j && j < len(events) && events[j].Type == evmtypes.EventTypeTxReceipt && (forall i int :: (0 <= i && i < j) ==> events[i].Type != evmtypes.EventTypeTxReceipt)
+//@ func TxReceiptFromEvent(events []abci.Event) (ic *InCompletedEthReceipt, err error)
+//@   modifies nothing
+//@   ensures[C14.receipt_from_event_none] (forall j int :: (0 <= j && j < len(events)) ==> events[j].Type != evmtypes.EventTypeTxReceipt) ==> (ic == nil && err == nil)
+//@   ensures[C14.receipt_from_event_some] (ic == nil && err == nil) ==> (forall j int :: (0 <= j && j < len(events)) ==> events[j].Type != evmtypes.EventTypeTxReceipt)
+//@   ensures[C14.receipt_from_event_shape] (err != nil ==> ic == nil) && (ic != nil ==> (fresh(ic) && ic.Receipt != nil && fresh(ic.Receipt) && ic.EffectiveGasPrice != nil && ic.Receipt.BlockNumber != nil && (exists j int :: 0 <= j && j < len(events) && events[j].Type == evmtypes.EventTypeTxReceipt)))
+//@   ensures[C14.receipt_from_event_gas_used] ic != nil ==> (forall j int, a int :: (evFirstReceiptAt(events, j) && attrFirstAt(events[j].Attributes, evmtypes.AttributeKeyReceiptGasUsed, a)) ==> ic.Receipt.GasUsed == uintTextVal(events[j].Attributes[a].Value, 10))
+//@   ensures[C14.receipt_from_event_tx_index] ic != nil ==> (forall j int, a int :: (evFirstReceiptAt(events, j) && attrFirstAt(events[j].Attributes, evmtypes.AttributeKeyReceiptTxIndex, a)) ==> ic.Receipt.TransactionIndex == uintTextVal(events[j].Attributes[a].Value, 10))
+//@   ensures[C14.receipt_from_event_tx_hash] ic != nil ==> (forall j int, a int :: (evFirstReceiptAt(events, j) && attrFirstAt(events[j].Attributes, evmtypes.AttributeKeyReceiptEvmTxHash, a)) ==> ic.Receipt.TxHash == common.HexToHash(events[j].Attributes[a].Value))
+//@   ensures[C14.receipt_from_event_consensus_fields] ic != nil ==> (forall j int, a int :: (evFirstReceiptAt(events, j) && attrFirstAt(events[j].Attributes, evmtypes.AttributeKeyReceiptMarshalled, a)) ==> hex0xDec(events[j].Attributes[a].Value) == rlpReceipt(ic.Receipt.Type, ic.Receipt.Status, ic.Receipt.CumulativeGasUsed, ic.Receipt.Bloom, base(ic.Receipt.Logs), off(ic.Receipt.Logs), len(ic.Receipt.Logs)))
+//@   ensures[C14.receipt_from_event_logs_fresh] ic != nil ==> (forall i int :: (0 <= i && i < len(ic.Receipt.Logs)) ==> (ic.Receipt.Logs[i] != nil && fresh(ic.Receipt.Logs[i])))
+//@   trusted ensures (err != nil) == evRcErr(base(events), off(events), len(events))
+//@   trusted ensures (ic != nil) == evRcHas(base(events), off(events), len(events))
+//@   trusted ensures ic != nil ==> bigval[ic.Receipt.BlockNumber] == evRcBlockNumber(base(events), off(events), len(events))
+//@   trusted ensures ic != nil ==> (ic.Receipt.GasUsed == evRcGasUsed(base(events), off(events), len(events)) && ic.Receipt.CumulativeGasUsed == evRcCumGas(base(events), off(events), len(events)) && ic.Receipt.Status == evRcStatus(base(events), off(events), len(events)) && ic.Receipt.Type == evRcType(base(events), off(events), len(events)) && ic.Receipt.TransactionIndex == evRcTxIndex(base(events), off(events), len(events)) && ic.Receipt.TxHash == evRcTxHash(base(events), off(events), len(events)) && ic.Receipt.ContractAddress == evRcContract(base(events), off(events), len(events)) && len(ic.Receipt.Logs) == evRcNLogs(base(events), off(events), len(events)))
+//@   trusted ensures ic != nil ==> off(ic.Receipt.Logs) == 0
+//@   panics[C14.receipt_from_event_never_panics] never
+//@ loop 1
+//@   invariant[C14.receipt_from_event_loop_bounds] -1 <= rangeindex && rangeindex < len(events)
+//@   invariant[C14.receipt_from_event_loop_none_yet] forall i int :: (0 <= i && i <= rangeindex) ==> events[i].Type != evmtypes.EventTypeTxReceipt
+
+// Fill: the block hash goes into the receipt and into every log; nothing else is written.
+//@ func (r *InCompletedEthReceipt) Fill(blockHash common.Hash)
+//@   requires r != nil && r.Receipt != nil
+//@   requires forall i int :: (0 <= i && i < len(r.Receipt.Logs)) ==> r.Receipt.Logs[i] != nil
+//@   modifies r.Receipt.BlockHash, fieldof(type(ethtypes.Log), BlockHash)
+//@   ensures[C14.fill_receipt_block_hash] r.Receipt.BlockHash == blockHash
+//@   ensures[C14.fill_logs_block_hash] forall i int :: (0 <= i && i < len(r.Receipt.Logs)) ==> r.Receipt.Logs[i].BlockHash == blockHash
+//@   ensures[C14.fill_other_logs_untouched] forall l *ethtypes.Log :: l.BlockHash == old(l.BlockHash) || (exists i int :: 0 <= i && i < len(r.Receipt.Logs) && r.Receipt.Logs[i] == l)
+//@   panics never
+//@ loop 1
+//@   invariant[C14.fill_loop_bounds] -1 <= rangeindex && rangeindex < len(r.Receipt.Logs)
+//@   invariant[C14.fill_loop_done] forall i int :: (0 <= i && i <= rangeindex) ==> r.Receipt.Logs[i].BlockHash == blockHash
+//@   invariant[C14.fill_loop_others] forall l *ethtypes.Log :: l.BlockHash == old(l.BlockHash) || (exists i int :: 0 <= i && i <= rangeindex && r.Receipt.Logs[i] == l)
+
+// ---------------------------------------------------------------------------------------------
+// tx_info.go — GetTransactionReceipt (C14): what is handed to the formatter rpctypes.NewRPCReceiptFromReceipt.
+//  * the message is the single Ethereum message of THIS transaction (block position res.TxIndex);
+//  * normal branch (the result of this transaction carries a receipt event): the receipt parsed from the events of
+//    TxsResults[res.TxIndex], filled with the hash of the block;
+//  * synthetic branch (no receipt event: failed after the ante handler / exceeded the block gas limit): status failed,
+//    gas used = the gas limit of the transaction, index = its eth tx index, hash = its hash, cumulative gas = own gas
+//    limit + the gas of the earlier transactions of the block by RAW position (prevGasTo) — only looked at when the eth
+//    tx index is positive, exactly as the code does.
+// ---------------------------------------------------------------------------------------------
+//@ func (b *Backend) GetTransactionReceipt(hash common.Hash) (rc *rpctypes.RPCReceipt, err error)
+//@   requires b != nil && b.logger != nil && b.clientCtx.TxConfig != nil
+// (the block hash is written into the logs of the freshly parsed receipt; the frame names the field, not the objects)
+//@   modifies txSrc, fieldof(type(ethtypes.Log), BlockHash)
+//@   panics any
+//@   at call TxReceiptFromEvent@2 assert[C14.prev_loop_consensus_counts_this_tx] !brDropped(blockRes, txIdx)
+//@   at call TxReceiptFromEvent@2 assert[C14.prev_loop_counted_tx] txDecodes(b.clientCtx.TxConfig.TxDecoder(), blkTxBytes(resBlock, txIdx)) && singleEthBytes(blkTxBytes(resBlock, txIdx)) && bytes(prevEthMsg.MarshalledTx) == ethTxOfBytes(blkTxBytes(resBlock, txIdx))
+//@   at call NewRPCReceiptFromReceipt@1 assert[C14.receipt_msg_is_this_tx] singleEthBytes(blkTxBytes(resBlock, res.TxIndex)) ==> bytes(ethMsg.MarshalledTx) == ethTxOfBytes(blkTxBytes(resBlock, res.TxIndex))
+//@   at call NewRPCReceiptFromReceipt@1 assert[C14.receipt_branch_by_own_result] (icReceipt != nil) == rsHas(blockRes, res.TxIndex) && !rsErr(blockRes, res.TxIndex)
+//@   at call NewRPCReceiptFromReceipt@1 assert[C14.receipt_from_own_result] icReceipt != nil ==> (receipt == icReceipt.Receipt && receipt != nil && receipt.GasUsed == rsGasUsed(blockRes, res.TxIndex) && receipt.CumulativeGasUsed == rsCumGas(blockRes, res.TxIndex) && receipt.Status == rsStatus(blockRes, res.TxIndex) && receipt.Type == rsType(blockRes, res.TxIndex) && receipt.TransactionIndex == rsTxIndex(blockRes, res.TxIndex) && receipt.TxHash == rsTxHash(blockRes, res.TxIndex) && receipt.ContractAddress == rsContract(blockRes, res.TxIndex) && len(receipt.Logs) == rsNLogs(blockRes, res.TxIndex))
+//@   at call NewRPCReceiptFromReceipt@1 assert[C14.receipt_filled_with_block_hash] icReceipt != nil ==> (receipt.BlockHash == hashOfBytes(bytes(resBlock.BlockID.Hash)) && (forall i int :: (0 <= i && i < len(receipt.Logs)) ==> receipt.Logs[i].BlockHash == hashOfBytes(bytes(resBlock.BlockID.Hash))))
+//@   at call NewRPCReceiptFromReceipt@1 assert[C14.synthetic_status_failed] icReceipt == nil ==> (receipt != nil && receipt.Status == 0 && len(receipt.Logs) == 0)
+//@   at call NewRPCReceiptFromReceipt@1 assert[C14.synthetic_gas_used_is_gas_limit] icReceipt == nil ==> receipt.GasUsed == decGas(bytes(ethMsg.MarshalledTx))
+//@   at call NewRPCReceiptFromReceipt@1 assert[C14.synthetic_tx_index] icReceipt == nil ==> receipt.TransactionIndex == asU64(res.EthTxIndex)
+//@   at call NewRPCReceiptFromReceipt@1 assert[C14.synthetic_tx_hash] icReceipt == nil ==> (receipt.TxHash == decHash(bytes(ethMsg.MarshalledTx)) && receipt.Type == decType(bytes(ethMsg.MarshalledTx)))
+//@   at call NewRPCReceiptFromReceipt@1 assert[C14.synthetic_cumulative_gas] icReceipt == nil ==> receipt.CumulativeGasUsed == (decGas(bytes(ethMsg.MarshalledTx)) + (res.EthTxIndex > 0 ? prevGasTo(b.clientCtx.TxConfig.TxDecoder(), resBlock, blockRes, res.TxIndex) : 0)) % pow2(64)
+//@   at call NewRPCReceiptFromReceipt@1 assert[C14.synthetic_cumulative_gas_consensus] (icReceipt == nil && res.EthTxIndex > 0) ==> receipt.CumulativeGasUsed == (decGas(bytes(ethMsg.MarshalledTx)) + consGasTo(b.clientCtx.TxConfig.TxDecoder(), resBlock, blockRes, res.TxIndex)) % pow2(64)
+//@   at call NewRPCReceiptFromReceipt@1 assert[C14.synthetic_block] icReceipt == nil ==> (receipt.BlockHash == hashOfBytes(bytes(resBlock.BlockID.Hash)) && receipt.BlockNumber != nil && bigval[receipt.BlockNumber] == blockRes.Height)
+//@ loop 1
+//@   modifies res.EthTxIndex
+//@ loop 2
+//@   modifies txSrc
+//@   invariant[C14.prev_loop_bounds] -1 <= rangeindex && rangeindex < res.TxIndex && res.TxIndex <= len(resBlock.Block.Data.Txs)
+//@   invariant[C14.prev_loop_cumulative_consensus] prevGasTo(b.clientCtx.TxConfig.TxDecoder(), resBlock, blockRes, rangeindex + 1) == consGasTo(b.clientCtx.TxConfig.TxDecoder(), resBlock, blockRes, rangeindex + 1)
+//@   invariant[C14.prev_loop_cumulative] cumulativeGasUsed == (txGas(ethTx) + prevGasTo(b.clientCtx.TxConfig.TxDecoder(), resBlock, blockRes, rangeindex + 1)) % pow2(64)
